@@ -116,7 +116,7 @@ pub fn data(rng: &mut Rng, depth: usize) -> Value {
     }
     match rng.below(10) {
         0 | 1 | 2 | 3 => {
-            let n = rng.below(5);
+            let n = size(rng);
             let mut m = Map::new();
             for _ in 0..n {
                 let k = *rng.pick(KEYS);
@@ -125,7 +125,7 @@ pub fn data(rng: &mut Rng, depth: usize) -> Value {
             Value::Object(m)
         }
         4 | 5 | 6 => {
-            let n = rng.below(5);
+            let n = size(rng);
             Value::Array((0..n).map(|_| data(rng, depth - 1)).collect())
         }
         7 => {
@@ -158,10 +158,19 @@ pub fn var_path(rng: &mut Rng) -> Value {
     }
 }
 
+/// Collection sizes: mostly small, sometimes long (code paths that only engage above a size threshold).
+pub fn size(rng: &mut Rng) -> usize {
+    match rng.below(12) {
+        0 => rng.range(5, 9),
+        1 => rng.range(9, 24),
+        _ => rng.below(5),
+    }
+}
+
 fn array_expr(rng: &mut Rng, depth: usize) -> Value {
     match rng.below(8) {
         0 | 1 | 2 => {
-            let n = rng.below(5);
+            let n = size(rng);
             Value::Array((0..n).map(|_| if rng.chance(1, 4) { rule(rng, depth.saturating_sub(1)) } else { atom(rng) }).collect())
         }
         3 | 4 => json!({"var": var_path(rng)}),
@@ -421,7 +430,7 @@ pub fn vary(rng: &mut Rng, v: &Value) -> Value {
 
 /// Operand list for an n-ary helper.
 pub fn helper_list(rng: &mut Rng) -> Value {
-    let n = rng.below(5);
+    let n = size(rng);
     Value::Array((0..n).map(|_| atom(rng)).collect())
 }
 
